@@ -8,6 +8,7 @@
    in the second case, with x's value; Search returns the values of last(Bl), x,
    head(Ar); RangeGet returns x's value, else last(Bl)'s, else not-found. *)
 From Slim Require Import Base Keys KeysProofs Model TrieInv BuildProofs QueryProofs OrderProofs SearchProofs.
+From Slim Require Import BitmapRank Bits Msg MsgProofs.
 
 Theorem C03_complete_exact :
   forall (ropt : raw_opt) keys vals T q,
@@ -50,3 +51,35 @@ Example C03_example :
             get T ["097"%byte; "109"%byte] = Ok NotFound /\
             search T ["097"%byte; "109"%byte] = Ok (Some (Some ["002"%byte]), None, Some (Some ["003"%byte])).
 Proof. eexists. repeat split; vm_compute; reflexivity. Qed.
+
+(* ---- the same through the bit-level message (sub-check L3 ties Msg.v to the code) ----
+   In Complete mode GetID, Get, Search and RangeGet run over the bitmaps of the message are
+   the exact ordered map over the retained keys, for EVERY query string *)
+Theorem C03_complete_exact_message :
+  forall (ropt : raw_opt) keys vals T m vs q fuel,
+    build (normalize ropt) keys vals = Ok T -> encode_trie T = Val m -> init_vars m = Val vs ->
+    trie_height T <= fuel -> keys <> [] ->
+    o_inner (normalize ropt) = true -> o_leaf (normalize ropt) = true ->
+    let root := root_subset (normalize ropt) keys vals in
+    let sv := fun x => stored T vals (e_idx x) in
+    exists Bl Ar,
+      Forall (fun x => key_lt (e_key x) q) Bl /\ Forall (fun x => key_lt q (e_key x)) Ar /\
+      ((kept root = Bl ++ Ar /\ mgetid (S fuel) m vs q = Ok None /\ mget (S fuel) m vs q = Ok NotFound /\
+        msearch (S fuel) m vs q = Ok (option_map sv (last_opt Bl), None, option_map sv (hd_opt Ar)) /\
+        mrangeget (S fuel) m vs q = Ok (match last_opt Bl with Some x => Found (sv x) | None => NotFound end))
+       \/
+       (exists x, kept root = Bl ++ x :: Ar /\ e_key x = q /\ (exists id, mgetid (S fuel) m vs q = Ok (Some id)) /\
+                  mget (S fuel) m vs q = Ok (Found (sv x)) /\
+                  msearch (S fuel) m vs q = Ok (option_map sv (last_opt Bl), Some (sv x), option_map sv (hd_opt Ar)) /\
+                  mrangeget (S fuel) m vs q = Ok (Found (sv x)))).
+Proof.
+  intros ropt keys vals T m vs q fuel Hb Em Ev Hf Hne Hi Hl root sv.
+  rewrite (mgetid_getid _ _ _ _ _ _ q _ Hb Em Ev Hf), (mget_get _ _ _ _ _ _ q _ Hb Em Ev Hf),
+          (msearch_search _ _ _ _ _ _ q _ Hb Em Ev Hf), (mrangeget_rangeget _ _ _ _ _ _ q _ Hb Em Ev Hf).
+  destruct (complete_exact (normalize ropt) keys vals T q Hb Hne Hi Hl) as (Bl & Ar & H1 & H2 & H).
+  exists Bl, Ar. split; [exact H1|]. split; [exact H2|].
+  destruct H as [(Ha & Hg & Hb' & Hc & Hd)|(x & Ha & Hx & (id & Hid) & Hb' & Hc & Hd)].
+  - left. rewrite Hg. repeat split; assumption.
+  - right. exists x. rewrite Hid. repeat split; try assumption. exists id. reflexivity.
+Qed.
+Print Assumptions C03_complete_exact_message.
